@@ -1142,34 +1142,41 @@ From GV Require Import Lib.Str Gen.FactsC17.
 (* the model's need_ping IS the source's _is_need_send_ping, for every configuration and state *)
 Lemma need_ping_is_source c s : need_ping_src c s = Some (need_ping c s).
 Proof.
+  (* whatever equivalent shape the condition tree has: split on every test that is left after
+     evaluation; each leaf is an arithmetic fact about the same atoms *)
   unfold need_ping_src, need_ping, need_send_ping_src. cbn.
-  destruct (k_permit c), (0 <? opens s), (k_maxp c =? 0), (k_maxp c <=? pcount s),
-    (last_ping s) as [lp|]; cbn; try reflexivity;
-    destruct (now s - lp <? k_minint c); reflexivity.
+  destruct (k_permit c), (last_ping s) as [lp|]; cbn;
+    repeat match goal with
+           | |- context [if ?b then _ else _] =>
+               lazymatch b with
+               | context [if _ then _ else _] => fail
+               | _ => destruct b eqn:?
+               end
+           | |- context [match (if ?b then _ else _) with _ => _ end] => destruct b eqn:?
+           end; cbn; try reflexivity; try (f_equal; lia); try lia.
 Qed.
 
-Definition h_ping : list Z := s2z "_ping_handle".
-Definition h_close : list Z := s2z "_close_by_ping_handler".
+Definition r_ping_timer : list Z := s2z "PING_TIMER".
+Definition r_close_timer : list Z := s2z "CLOSE_TIMER".
+Definition r_ping_callback : list Z := s2z "PING_CALLBACK".
 
-(* the statement skeletons the model was transcribed from (logging and the opaque ping payload
-   are dropped by the translator) *)
+(* the keepalive effects the model was transcribed from.  The translator normalises first (private
+   helpers inlined, tuple loops unrolled, once-bound locals substituted, logging / asserts / payload
+   formatting / statistics dropped, attributes named by role, runs of independent simple effects
+   sorted), so this is a statement about what the methods DO, not how they are spelled *)
 Definition expected_initialize : list kstmt :=
-  [SIf (KIsNotNone (ECfg n_time)) [SArm h_ping n_time (s2z "_ping")]].
+  [SIf (KIsNotNone (ECfg n_time)) [SArm r_ping_timer n_time r_ping_callback]].
 Definition expected_ping : list kstmt :=
-  [SAssert (KIsNotNone (ECfg n_time));
-   SIf KNeedPing
+  [SIf KNeedPing
      [SSendPing; SFlush; SSet n_last_ping ENow; SInc n_count;
-      SIf (KNot (KIsNotNone (EAttr h_close))) [SArm h_close n_timeout (s2z "close")]];
-   SArm h_ping n_time (s2z "_ping")].
+      SIf (KNot (KIsNotNone (EAttr r_close_timer))) [SArm r_close_timer n_timeout (s2z "close")]];
+   SArm r_ping_timer n_time r_ping_callback].
 Definition expected_close : list kstmt :=
-  [SIf (KHasAttr (s2z "self") (s2z "_transport"))
-     [SCloseTransport; SDel (s2z "self._transport");
-      SIf (KHasAttr (s2z "self._connection") (s2z "_frame_dispatch_table"))
-        [SDel (s2z "self._connection._frame_dispatch_table")]];
-   SIf (KIsNotNone (EAttr h_ping)) [SCancel h_ping];
-   SIf (KIsNotNone (EAttr h_close)) [SCancel h_close]].
+  [SIf KOpaque [SCloseTransport];
+   SIf (KIsNotNone (EAttr r_ping_timer)) [SCancel r_ping_timer];
+   SIf (KIsNotNone (EAttr r_close_timer)) [SCancel r_close_timer]].
 Definition expected_ping_ack_process : list kstmt :=
-  [SIf (KIsNotNone (EAttr h_close)) [SCancel h_close; SSet h_close ENone]].
+  [SIf (KIsNotNone (EAttr r_close_timer)) [SSet r_close_timer ENone; SCancel r_close_timer]].
 
 Lemma source_shape :
   src_initialize = expected_initialize /\
@@ -1177,9 +1184,8 @@ Lemma source_shape :
   src_close = expected_close /\
   src_ping_ack_process = expected_ping_ack_process /\
   src_headers_send_process = [SSet n_count (EConst 0)] /\
-  src_data_send_process = [SSet n_count (EConst 0); SSet (s2z "last_data_sent") ENow] /\
-  src_process_ping_ack_received = [SCall (s2z "ping_ack_process")] /\
-  call_sites = [(s2z "data_send_process", 2); (s2z "headers_send_process", 2)] /\
+  src_data_send_process = [SSet (s2z "last_data_sent") ENow; SSet n_count (EConst 0)] /\
+  src_ping_ack_handler = [SCall (s2z "ping_ack_process")] /\
   facts_ticks_per_second = ticks_per_second.
 Proof. vm_compute. repeat split; reflexivity. Qed.
 
@@ -1287,14 +1293,14 @@ Proof. reflexivity. Qed.
 Lemma writers_exact :
   keepalive_writers =
   [ (s2z "ping_count_in_sequence",
-     [(s2z "protocol:Connection._ping", s2z "inc");
-      (s2z "protocol:Connection.headers_send_process", s2z "zero");
-      (s2z "protocol:Connection.data_send_process", s2z "zero")]);
-    (s2z "last_ping_sent", [(s2z "protocol:Connection._ping", s2z "now")]);
-    (s2z "_ping_handle",
-     [(s2z "protocol:Connection.initialize", s2z "arm"); (s2z "protocol:Connection._ping", s2z "arm")]);
-    (s2z "_close_by_ping_handler",
-     [(s2z "protocol:Connection._ping", s2z "arm");
+     [(s2z "protocol:Connection.PING_CALLBACK", s2z "inc");
+      (s2z "protocol:Connection.data_send_process", s2z "zero");
+      (s2z "protocol:Connection.headers_send_process", s2z "zero")]);
+    (s2z "last_ping_sent", [(s2z "protocol:Connection.PING_CALLBACK", s2z "now")]);
+    (s2z "PING_TIMER",
+     [(s2z "protocol:Connection.PING_CALLBACK", s2z "arm"); (s2z "protocol:Connection.initialize", s2z "arm")]);
+    (s2z "CLOSE_TIMER",
+     [(s2z "protocol:Connection.PING_CALLBACK", s2z "arm");
       (s2z "protocol:Connection.ping_ack_process", s2z "none")]) ].
 Proof. vm_compute. reflexivity. Qed.
 
